@@ -25,7 +25,8 @@ PROFILE = world.profile(reconfig=0.25, constraints={"three": 5, "single": 1, "no
                         party={"greedy": 3, "rr": 2}, estimator={"none": 2, "rampdown": 2, "stub": 3}, uninterrupted=0.5,
                         sid_mode={"plain": 1, "crossed": 1}, faults={"crash": 0.3}, resume_modes=["rerun"],
                         demand=(0.01, 1.6), rr_inc=[0.05, 0.1, 0.5, 1, 3], stations=(2, 7), noise=0.2, horizon=(4, 24),
-                        sorted_max_recompute=[1, 1, 1, 2, 4, None])
+                        sorted_max_recompute=[1, 1, 1, 2, 4, None],
+                        sorts=["fcfs", "lcfs", "edf", "llf", "lrpt", "fcfs", "lcfs", "edf", "llf", "lrpt", "user_id", "user_request"])
 
 
 def gen(rs, tier):
